@@ -2,6 +2,7 @@ package main
 
 import (
 	"fmt"
+	"go/ast"
 	"go/constant"
 	"go/token"
 	"go/types"
@@ -306,66 +307,84 @@ func escRule(c *Ctx, r *Report, rule string) {
 		r.undecided(rule, "writeString: rune loop", fn.Pos(), "no range over the string found")
 		return
 	}
-	uni := ival{0, 0x10FFFF}
 	loops := loopsOf(fn)
 	nRaw, nEsc := 0, 0
-	for _, b := range fn.Blocks {
-		if innermostLoop(loops, b) == nil {
+	writes := runeWrites(c, fn, rn)
+	for _, w := range writes {
+		call, elems, known, rs := w.call, w.elems, w.known, w.rs
+		if !known {
+			// bytes produced by a library encoder (utf8.EncodeRune): raw bytes of the code point
+			nRaw++
+			bad := rs.intersect(mustEscape)
+			r.check(rule, fmt.Sprintf("writeString: encoded write #%d never carries a must-escape code point", nRaw), call.Pos(), len(bad) == 0, fmt.Sprintf("code points %s reach an unescaped write (reach set %s)", bad, rs))
 			continue
 		}
-		for _, in := range b.Instrs {
-			call, ok := in.(*ssa.Call)
-			if !ok || !call.Call.IsInvoke() || call.Call.Method.Name() != "Write" || len(call.Call.Args) != 1 {
-				continue
-			}
-			elems, known := sliceLitElems(call.Call.Args[0])
-			rs := reachSet(b, rn, uni)
-			key := fmt.Sprintf("writeString: write at %s for code points %s", c.fileBase(call.Pos())+":"+fmt.Sprint(c.fset.Position(call.Pos()).Line-c.fset.Position(fn.Pos()).Line), rs)
-			_ = key
-			if !known {
-				// bytes produced by a library encoder (utf8.EncodeRune): raw bytes of the code point
-				nRaw++
-				bad := rs.intersect(mustEscape)
-				r.check(rule, fmt.Sprintf("writeString: encoded write #%d never carries a must-escape code point", nRaw), call.Pos(), len(bad) == 0, fmt.Sprintf("code points %s reach an unescaped write (reach set %s)", bad, rs))
-				continue
-			}
-			first, isC := elems[0].(*ssa.Const)
-			if isC && first.Int64() == '\\' {
-				nEsc++
-				// escape sequence
-				if len(elems) == 2 {
-					if k, ok := elems[1].(*ssa.Const); ok {
-						// constant letter: must be a JSON escape letter
-						okL := strings.ContainsRune("bfnrt\"\\/", rune(k.Int64()))
-						r.check(rule, fmt.Sprintf("writeString: escape \\%c is a JSON escape", rune(k.Int64())), call.Pos(), okL, "not a JSON escape letter")
-					} else {
-						// \ + byte(r): only for code points that are their own escape letter
-						okS := len(rs.intersect(iset{{0, 0x21}, {0x23, 0x2e}, {0x30, 0x5b}, {0x5d, 0x10FFFF}})) == 0
-						r.check(rule, "writeString: backslash + the character itself only for \" \\ /", call.Pos(), okS, fmt.Sprintf("reach set %s contains characters that are not their own escape", rs))
-					}
-				} else if len(elems) == 6 {
-					k, ok := elems[1].(*ssa.Const)
-					okU := ok && k.Int64() == 'u' && len(rs.intersect(iset{{0x10000, 0x10FFFF}})) == 0
-					r.check(rule, "writeString: \\u escape has four hex digits and covers the code point", call.Pos(), okU, fmt.Sprintf("reach set %s", rs))
-				} else {
-					r.check(rule, fmt.Sprintf("writeString: escape of %d bytes", len(elems)), call.Pos(), false, "unknown escape form")
-				}
-				continue
-			}
-			// raw write of byte(r) or constants
-			nRaw++
-			nonConst := false
-			for _, e := range elems {
-				if _, ok := e.(*ssa.Const); !ok {
-					nonConst = true
-				}
-			}
-			if !nonConst {
-				continue
-			}
-			bad := rs.intersect(mustEscape)
-			r.check(rule, fmt.Sprintf("writeString: raw write #%d never carries a must-escape code point", nRaw), call.Pos(), len(bad) == 0, fmt.Sprintf("code points %s reach an unescaped byte write (reach set %s): invalid JSON / SDL string", bad, rs))
+		if len(elems) == 0 {
+			continue
 		}
+		first, isC := elems[0].(*ssa.Const)
+		if isC && first.Int64() == '\\' {
+			nEsc++
+			// escape sequence
+			if len(elems) == 2 {
+				if k, ok := elems[1].(*ssa.Const); ok {
+					// constant letter: must be a JSON escape letter, written for the code point it stands for
+					okL := strings.ContainsRune("bfnrt\"\\/", rune(k.Int64()))
+					r.check(rule, fmt.Sprintf("writeString: escape \\%c is a JSON escape", rune(k.Int64())), call.Pos(), okL, "not a JSON escape letter")
+					if cp, isE := jsonEscapeOf[rune(k.Int64())]; isE {
+						only := len(rs) == 0 || (len(rs) == 1 && rs[0].lo == cp && rs[0].hi == cp)
+						r.check(rule, fmt.Sprintf("writeString: escape \\%c is written for the code point it stands for", rune(k.Int64())), call.Pos(), only, fmt.Sprintf("the escape stands for %#x and is written for %s: the string reads back as another string", cp, rs))
+					}
+				} else if g, isT := tableIndexed(elems[1], rn); isT {
+					// the letter is looked up in a table: every entry reachable here is the escape letter of its index
+					ents, okT := tableOf(g)
+					okAll := okT
+					bad := ""
+					for _, iv := range rs {
+						for cp := iv.lo; cp <= iv.hi && cp < 1<<16 && okAll; cp++ {
+							letter := ents[cp]
+							if want, isE := jsonEscapeOf[rune(letter)]; !isE || want != cp {
+								okAll = false
+								bad = fmt.Sprintf("code point %#x is written as \\%c", cp, rune(letter))
+							}
+						}
+					}
+					r.check(rule, "writeString: table of short escapes maps each code point to the JSON escape that stands for it", call.Pos(), okAll, bad)
+				} else {
+					// \ + byte(r): only for code points that are their own escape letter
+					okS := len(rs.intersect(iset{{0, 0x21}, {0x23, 0x2e}, {0x30, 0x5b}, {0x5d, 0x10FFFF}})) == 0
+					r.check(rule, "writeString: backslash + the character itself only for \" \\ /", call.Pos(), okS, fmt.Sprintf("reach set %s contains characters that are not their own escape", rs))
+				}
+			} else if len(elems) == 6 {
+				k, ok := elems[1].(*ssa.Const)
+				okU := ok && k.Int64() == 'u' && len(rs.intersect(iset{{0x10000, 0x10FFFF}})) == 0
+				// digits written as constants stand for zero: the code points must fit the remaining digits
+				for i, lim := range []int64{0xfff, 0xff} {
+					if d, isD := elems[2+i].(*ssa.Const); isD {
+						if d.Int64() != '0' || len(rs.intersect(iset{{lim + 1, 0x10FFFF}})) > 0 {
+							okU = false
+						}
+					}
+				}
+				r.check(rule, "writeString: \\u escape has four hex digits and covers the code point", call.Pos(), okU, fmt.Sprintf("reach set %s", rs))
+			} else {
+				r.check(rule, fmt.Sprintf("writeString: escape of %d bytes", len(elems)), call.Pos(), false, "unknown escape form")
+			}
+			continue
+		}
+		// raw write of byte(r) or constants
+		nRaw++
+		nonConst := false
+		for _, e := range elems {
+			if _, ok := e.(*ssa.Const); !ok {
+				nonConst = true
+			}
+		}
+		if !nonConst {
+			continue
+		}
+		bad := rs.intersect(mustEscape)
+		r.check(rule, fmt.Sprintf("writeString: raw write #%d never carries a must-escape code point", nRaw), call.Pos(), len(bad) == 0, fmt.Sprintf("code points %s reach an unescaped byte write (reach set %s): invalid JSON / SDL string", bad, rs))
 	}
 	// writes outside the per-character loop that carry the string itself (a fast path): allowed only
 	// under a plainness predicate proven, character class by character class, to reject every
@@ -417,23 +436,16 @@ func escRule(c *Ctx, r *Report, rule string) {
 			r.check(rule, fmt.Sprintf("writeString: whole-string write #%d only for strings proven free of must-escape code points", nWhole), call.Pos(), okG, why+": a backslash, quote or control character reaches the output unescaped (invalid JSON / SDL string, or a different string when read back)")
 		}
 	}
-	r.floor(rule, "escape writes in the string writer", nEsc, 7)
+	r.floor(rule, "escape writes in the string writer", nEsc, 2) // the short escapes (one arm each, or one table) and the \\u form; that every must-escape code point has one is decided below
 	r.floor(rule, "raw writes in the string writer", nRaw, 2)
 	// every must-escape code point is handled by some escape: the union of reach sets of escape writes covers mustEscape
 	cover := iset{}
-	for _, b := range fn.Blocks {
-		for _, in := range b.Instrs {
-			call, ok := in.(*ssa.Call)
-			if !ok || !call.Call.IsInvoke() || call.Call.Method.Name() != "Write" {
-				continue
-			}
-			elems, known := sliceLitElems(call.Call.Args[0])
-			if !known {
-				continue
-			}
-			if first, isC := elems[0].(*ssa.Const); isC && first.Int64() == '\\' {
-				cover = append(cover, reachSet(b, rn, uni)...)
-			}
+	for _, w := range writes {
+		if !w.known || len(w.elems) == 0 {
+			continue
+		}
+		if first, isC := w.elems[0].(*ssa.Const); isC && first.Int64() == '\\' {
+			cover = append(cover, w.rs...)
 		}
 	}
 	cover = cover.norm()
@@ -844,26 +856,69 @@ func checkC18(c *Ctx, r *Report) {
 			}
 		}
 	}
+	// letters accepted through a table: a package-level array indexed with the byte after the backslash
+	// (declared with a literal, written nowhere else): the indices that hold a non-zero entry
+	for _, b := range re.Blocks {
+		for _, in := range b.Instrs {
+			ia, ok := in.(*ssa.IndexAddr)
+			if !ok {
+				continue
+			}
+			g, ok := ia.X.(*ssa.Global)
+			if !ok {
+				continue
+			}
+			idx := ia.Index
+			if cv, ok := idx.(*ssa.Convert); ok {
+				idx = cv.X
+			}
+			if idx != firstByte {
+				continue
+			}
+			if ents, ok := c.globalArrayLit(g); ok {
+				for k, v := range ents {
+					if v.Kind() == constant.Int {
+						if n, _ := constant.Int64Val(v); n != 0 {
+							accepted[rune(k)] = true
+						}
+					}
+				}
+			}
+		}
+	}
 	emitted := map[rune]bool{}
+	var wrn ssa.Value
 	for _, b := range ws.Blocks {
 		for _, in := range b.Instrs {
-			call, ok := in.(*ssa.Call)
-			if !ok || !call.Call.IsInvoke() || call.Call.Method.Name() != "Write" {
-				continue
+			if ex, ok := in.(*ssa.Extract); ok && ex.Index == 2 {
+				if nx, ok := ex.Tuple.(*ssa.Next); ok && nx.IsString {
+					wrn = ex
+				}
 			}
-			elems, known := sliceLitElems(call.Call.Args[0])
-			if !known || len(elems) < 2 {
-				continue
+		}
+	}
+	for _, w := range runeWrites(c, ws, wrn) {
+		if !w.known || len(w.elems) < 2 {
+			continue
+		}
+		if first, isC := w.elems[0].(*ssa.Const); !isC || first.Int64() != '\\' {
+			continue
+		}
+		if k, ok := w.elems[1].(*ssa.Const); ok {
+			emitted[rune(k.Int64())] = true
+		} else if g, isT := tableIndexed(w.elems[1], wrn); isT && wrn != nil {
+			if ents, ok := tableOf(g); ok {
+				for _, iv := range w.rs {
+					for cp := iv.lo; cp <= iv.hi && cp < 1<<16; cp++ {
+						if l := ents[cp]; l != 0 {
+							emitted[rune(l)] = true
+						}
+					}
+				}
 			}
-			if first, isC := elems[0].(*ssa.Const); !isC || first.Int64() != '\\' {
-				continue
-			}
-			if k, ok := elems[1].(*ssa.Const); ok {
-				emitted[rune(k.Int64())] = true
-			} else {
-				emitted['"'] = true
-				emitted['\\'] = true
-			}
+		} else {
+			emitted['"'] = true
+			emitted['\\'] = true
 		}
 	}
 	var em []string
@@ -874,7 +929,7 @@ func checkC18(c *Ctx, r *Report) {
 	for _, l := range em {
 		r.check("C18.TABLE", fmt.Sprintf("escape \\%s emitted by the writer is accepted by the reader", l), re.Pos(), accepted[[]rune(l)[0]], "the reader's escape switch has no case for a letter the writer emits: written strings do not parse back")
 	}
-	r.floor("C18.TABLE", "escape letters emitted by the writer", len(em), 8)
+	r.floor("C18.TABLE", "escape letters emitted by the writer", len(em), 7)
 	// \u: reader loops exactly four times
 	four := false
 	for _, l := range loopsOf(re) {
@@ -1198,23 +1253,13 @@ func c18RawAccept(c *Ctx, r *Report) {
 		return
 	}
 	var raw iset
-	loops := loopsOf(ws)
-	for _, b := range ws.Blocks {
-		if innermostLoop(loops, b) == nil {
-			continue
-		}
-		for _, in := range b.Instrs {
-			call, ok := in.(*ssa.Call)
-			if !ok || !call.Call.IsInvoke() || call.Call.Method.Name() != "Write" || len(call.Call.Args) != 1 {
+	for _, w := range runeWrites(c, ws, rn) {
+		if w.known && len(w.elems) > 0 {
+			if first, isC := w.elems[0].(*ssa.Const); isC && first.Value != nil && first.Int64() == '\\' {
 				continue
 			}
-			if elems, known := sliceLitElems(call.Call.Args[0]); known {
-				if first, isC := elems[0].(*ssa.Const); isC && first.Value != nil && first.Int64() == '\\' {
-					continue
-				}
-			}
-			raw = append(raw, reachSet(b, rn, ival{0, 0x10FFFF})...)
 		}
+		raw = append(raw, w.rs...)
 	}
 	raw = raw.norm()
 	rawBytes := raw.intersect(iset{{0, 0x7f}})
@@ -1359,3 +1404,134 @@ func numFmtWriterRule(c *Ctx, r *Report, rule string) {
 	}
 	r.floor(rule, "numeric writes in the value writer", n, 4)
 }
+
+// globalArrayLit: the keyed constant entries of a package-level array or slice that is declared with a
+// composite literal and written nowhere else (index -> constant value; positional entries count from 0).
+func (c *Ctx) globalArrayLit(g *ssa.Global) (map[int64]constant.Value, bool) {
+	for _, fn := range c.allFns {
+		for _, b := range fn.Blocks {
+			for _, in := range b.Instrs {
+				if st, ok := in.(*ssa.Store); ok && rootGlobal(st.Addr) == g {
+					return nil, false
+				}
+			}
+		}
+	}
+	info := c.P.TypesInfo
+	for _, f := range c.P.Syntax {
+		for _, d := range f.Decls {
+			gd, ok := d.(*ast.GenDecl)
+			if !ok || gd.Tok != token.VAR {
+				continue
+			}
+			for _, sp := range gd.Specs {
+				vs := sp.(*ast.ValueSpec)
+				for i, nm := range vs.Names {
+					if nm.Name != g.Name() || info.Defs[nm] == nil || info.Defs[nm].Parent() != c.P.Types.Scope() || i >= len(vs.Values) {
+						continue
+					}
+					cl, ok := vs.Values[i].(*ast.CompositeLit)
+					if !ok {
+						return nil, false
+					}
+					out := map[int64]constant.Value{}
+					next := int64(0)
+					for _, el := range cl.Elts {
+						val := el
+						if kv, ok := el.(*ast.KeyValueExpr); ok {
+							tv, ok := info.Types[kv.Key]
+							if !ok || tv.Value == nil || tv.Value.Kind() != constant.Int {
+								return nil, false
+							}
+							next, _ = constant.Int64Val(tv.Value)
+							val = kv.Value
+						}
+						tv, ok := info.Types[val]
+						if !ok || tv.Value == nil {
+							return nil, false
+						}
+						out[next] = tv.Value
+						next++
+					}
+					return out, true
+				}
+			}
+		}
+	}
+	return nil, false
+}
+
+// runeWrite: one alternative of a Write inside the per-character loop of the string writer: the bytes
+// (elements of a slice literal when known) and the code points for which this alternative is written.
+type runeWrite struct {
+	call  *ssa.Call
+	val   ssa.Value
+	elems []ssa.Value
+	known bool
+	rs    iset
+}
+
+// useTables lets the reach sets follow guards of the form table[r] != 0.
+func useTables(c *Ctx) {
+	tableOf = func(g *ssa.Global) (map[int64]int64, bool) {
+		ents, ok := c.globalArrayLit(g)
+		if !ok {
+			return nil, false
+		}
+		out := map[int64]int64{}
+		for k, v := range ents {
+			if v.Kind() != constant.Int {
+				return nil, false
+			}
+			n, _ := constant.Int64Val(v)
+			out[k] = n
+		}
+		return out, true
+	}
+}
+
+// runeWrites enumerates the Write calls in the loops of fn; an argument that is a phi (the bytes were
+// chosen first and are written by one call afterwards) is split into its alternatives, each with the code
+// points for which its edge is taken.
+func runeWrites(c *Ctx, fn *ssa.Function, rn ssa.Value) []runeWrite {
+	useTables(c)
+	uni := ival{0, 0x10FFFF}
+	loops := loopsOf(fn)
+	var out []runeWrite
+	for _, b := range fn.Blocks {
+		if innermostLoop(loops, b) == nil {
+			continue
+		}
+		for _, in := range b.Instrs {
+			call, ok := in.(*ssa.Call)
+			if !ok || !call.Call.IsInvoke() || call.Call.Method.Name() != "Write" || len(call.Call.Args) != 1 {
+				continue
+			}
+			base := reachSet(b, rn, uni)
+			seen := map[ssa.Value]bool{}
+			var walk func(v ssa.Value, rs iset)
+			walk = func(v ssa.Value, rs iset) {
+				if phi, ok := v.(*ssa.Phi); ok {
+					if seen[phi] {
+						return
+					}
+					seen[phi] = true
+					for i, e := range phi.Edges {
+						walk(e, rs.intersect(reachSetEdge(phi.Block().Preds[i], phi.Block(), rn, uni)))
+					}
+					return
+				}
+				if k, isC := v.(*ssa.Const); isC && k.Value == nil {
+					return // the zero value of the variable that receives the bytes: never written
+				}
+				elems, known := sliceLitElems(v)
+				out = append(out, runeWrite{call, v, elems, known, rs})
+			}
+			walk(call.Call.Args[0], base)
+		}
+	}
+	return out
+}
+
+// jsonEscapeOf: the code point a two-character JSON escape stands for.
+var jsonEscapeOf = map[rune]int64{'b': 8, 'f': 12, 'n': 10, 'r': 13, 't': 9, '"': 34, '\\': 92, '/': 47}
